@@ -25,7 +25,7 @@ static void* batch_calls(void* arg) {
     if (!native && (o->flags & (OPF_NTT120 | OPF_AVX | OPF_KERNEL | OPF_SIMPLE))) continue;
     for (unsigned sd = 0; sd < seeds; sd++) {
       opres_t r;
-      op_exec(o, env, mix64(G.seed * 77 + batch * 1009 + sd), (int)(sd & 3), sd + batch, MON_CANARY | MON_SNAPSHOT, &r);
+      op_exec(o, env, mix64(G.seed * 77 + batch * 1009 + sd + N * 131 + (uint64_t)oi * 7), (int)(sd & 3), sd + batch, MON_CANARY | MON_SNAPSHOT, &r);
       if (r.skipped) continue;
       B->calls++;
       B->srcb += r.src_bytes;
